@@ -174,3 +174,15 @@ Theorem C02_task_queue_link : forall nm : Z -> Loop.task,
      exists ta n3 n4, n2 = n3 ++ AtomicQueue.LinDeq ta a va :: n4).
 Proof. exact task_queue_link. Qed.
 Print Assumptions C02_task_queue_link.
+
+From GV Require Proofs.LoopDataExamples.
+(* Non-vacuity: the example run has hand-overs (a short one included); the checker accepts it and rejects
+   the same history with the first hand-over marker dropped. *)
+Example C02_nonvacuous :
+  (exists t, run_history LoopDataExamples.ex_input = Some t /\ List.length t = 72%nat) /\
+  outbound_ok LoopDataExamples.ex_history = true /\
+  outbound_ok (LoopDataExamples.drop_first (LoopDataExamples.is_out "g" "hand") LoopDataExamples.ex_history) = false.
+Proof.
+  split; [exact LoopDataExamples.ex_runs|]. split; [exact (proj1 (proj2 LoopDataExamples.ex_checkers))|exact LoopDataExamples.ex_outbound_rejects].
+Qed.
+Print Assumptions C02_nonvacuous.
